@@ -13,9 +13,6 @@
 -/
 import CatVerif.Proofs.WriteNum
 import CatVerif.Proofs.Log
-import CatVerif.Proofs.Steps.Format
-import CatVerif.Proofs.Steps.ParseArgs
-import CatVerif.Proofs.Steps.Leaves
 namespace Cat
 open St Spec
 
@@ -105,16 +102,5 @@ theorem C08_write_gate (D : Desc) (s : St) (i : SvcIn) (hs : s.state = .parseCom
     tr .ack (commandService D s i).1.log = tr .ack s.log ++ [.ack false] ∧
     (commandService D s i).1.mem = s.mem := by
   simp [commandService, hs, parseCommandArgs, readCmdChar, hrd, hot, hv, hw, ackError, startFlush, cls]
-
-/-- the step that hands an argument to a variable (`parse_write_args`) and the step that formats a variable for a READ
-response (`format_read_args`) — the two places where the access mode of a variable is honoured — are the functions
-re-recognised in the source on every run (translator items T17, T18) -/
-theorem C08_access_steps_generated (D : Desc) (s : St) (f : Fsm) (i : SvcIn) :
-    parseWriteArgs D s i = Gen.parse_write_args D s i ∧ formatReadArgs D s f i = Gen.format_read_args D s f i :=
-  ⟨parseWriteArgs_generated D s i, formatReadArgs_generated D s f i⟩
-
-/-- "some variable of the command may be read / written" is the transliteration of `is_variables_access_possible`
-(translator item T22) -/
-theorem C08_access_test_generated (c : CmdD) (a : Access) : varsAccessible c a = Gen.is_variables_access_possible c a := rfl
 
 end Cat
